@@ -29,7 +29,7 @@ RULE = ("quick: adv = all advance sequences of length <= 4 over 2 logs x heights
         "3 authors x 3 logs, 200 random sequences (<= 40 advances, initial state, heights up to u32::MAX); ack = all sequences of length <= 2 over "
         "2 default-named topic streams x 2 authors x 2 topics x seq {0,1,2} (601) and 300 random histories (1-4 instances with default or custom, "
         "possibly shared names, 3 topics of which one is tracked by nobody, <= 14 acks). thorough: adv length <= 5 (9331) + 20 multisets x 120 orders "
-        "+ 2000 random; ack length <= 3 (14425) + 3000 random (<= 40 acks). "
+        "+ 2000 random; ack length <= 2 as in quick + all 1728 length-3 sequences with one author + 3000 random (<= 40 acks). "
         "non-trivial = adv: some advance was ignored (lower than the current height); ack: both an accepted and a rejected ack occur")
 
 
@@ -91,8 +91,12 @@ def gen(tier, rng):
     # ack: two topic streams with their default cursor names
     insts = [[None, 0], [None, 1]]
     ops_alpha = [[i, a, t, h] for i in (0, 1) for a in (0, 1) for t in (0, 1) for h in (0, 1, 2)]
-    for n in range(0, (2 if quick else 3) + 1):
+    for n in range(0, 3):
         for ops in itertools.product(ops_alpha, repeat=n):
+            yield {"kind": "ack", "insts": insts, "ops": [list(o) for o in ops]}
+    if not quick:
+        one_author = [o for o in ops_alpha if o[1] == 0]
+        for ops in itertools.product(one_author, repeat=3):
             yield {"kind": "ack", "insts": insts, "ops": [list(o) for o in ops]}
     for _ in range(300 if quick else 3000):
         yield _rand_ack(rng, 14 if quick else 40)
